@@ -19,3 +19,5 @@ Definition c06_bech32_create_checksum := bech32_create_checksum.
 Definition c06_bech32_verify_checksum := bech32_verify_checksum.
 Definition c06_spec_decode := spec_decode.
 Definition c06_valid_segwit := valid_segwit.
+Definition c06_cli_bech32_decode := cli_bech32_decode.
+Definition c06_cli_bech32_encode := cli_bech32_encode.
